@@ -91,6 +91,7 @@ class FamilyCfg(Cfg):
             f = fams if i % 3 else ALLFAM
             out.append(api(seed * 1000 + i, t, l, f, mode, hostile))
         out += self.scripts(tier)
+        out += big_scripts(self.family)
         return out
 
     def scripts(self, tier):
@@ -121,6 +122,57 @@ def judge_spec(v, listed):
 
 
 K1, K2, K3 = hx("k1"), hx("k2"), hx("k3")
+def big_scripts(family):
+    """Collections larger than any page size or batch constant of the code (10, 1000 are the ones in the tree), built in
+    descending, ascending-with-overwrites and shuffled order, then read through every whole-collection reader of the family:
+    the 3-element universes of the random traces never reach them."""
+    def e(i):
+        return hx("e%02d" % i)
+    orders = {"desc": list(range(26, -1, -1)), "asc2": list(range(0, 27)) + [3, 1, 20],
+              "mix": [(i * 11) % 27 for i in range(27)]}
+    s = ""
+    for oname, idx in orders.items():
+        for mode in ("db", "tx"):
+            s += f"--- {mode}\n"
+            if family == "hash":
+                for i in idx:
+                    s += f"!hash.Set {K1} {e(i)} {hx('v%d' % i)}\n"
+                s += (f"hash.Items {K1}\nhash.Fields {K1}\nhash.Values {K1}\nhash.Len {K1}\n"
+                      f"hash.GetMany {K1} 4 {e(0)} {e(13)} {e(26)} {e(99)}\nhash.Exists {K1} {e(26)}\n"
+                      f"hash.Delete {K1} 3 {e(0)} {e(5)} {e(99)}\nhash.Items {K1}\nhash.Len {K1}\n")
+            elif family == "set":
+                for i in idx:
+                    s += f"!set.Add {K1} 1 {e(i)}\n"
+                for i in idx[:12]:
+                    s += f"!set.Add {K2} 1 {e(i)}\n"
+                s += (f"set.Items {K1}\nset.Len {K1}\nset.Exists {K1} {e(26)}\nset.Inter 2 {K1} {K2}\nset.Union 2 {K1} {K2}\n"
+                      f"set.Diff 2 {K1} {K2}\nset.UnionStore {K3} 2 {K1} {K2}\nset.Items {K3}\nset.Len {K3}\n"
+                      f"set.DiffStore {K3} 2 {K1} {K2}\nset.Items {K3}\nset.Delete {K1} 3 {e(0)} {e(5)} {e(99)}\nset.Items {K1}\nset.Len {K1}\n")
+            elif family == "zset":
+                for n, i in enumerate(idx):
+                    s += f"!zset.Add {K1} {e(i)} {(i * 7) % 5}p0\n"
+                for i in idx[:12]:
+                    s += f"!zset.Add {K2} {e(i)} 1p0\n"
+                s += (f"zset.RangeRank {K1} 0 -1 0\nzset.RangeRank {K1} 0 -1 1\nzset.RangeRank {K1} 9 11 0\nzset.Len {K1}\n"
+                      f"zset.RangeScore {K1} -inf inf 0 0 0\nzset.RangeScore {K1} 1p0 3p0 1 2 11\nzset.Count {K1} 0p0 1p1\n"
+                      f"zset.GetRank {K1} {e(13)}\nzset.GetRankRev {K1} {e(13)}\nzset.Union 2 {K1} {K2} sum\nzset.Inter 2 {K1} {K2} max\n"
+                      f"zset.UnionStore {K3} 2 {K1} {K2} min\nzset.RangeRank {K3} 0 -1 0\nzset.Len {K3}\n"
+                      f"zset.DeleteRank {K1} 10 12\nzset.RangeRank {K1} 0 -1 0\nzset.Len {K1}\n")
+            elif family == "list":
+                for n, i in enumerate(idx):
+                    s += f"!list.{'PushBack' if n % 3 else 'PushFront'} {K1} {e(i % 9)}\n"
+                s += (f"list.Range {K1} 0 -1\nlist.Len {K1}\nlist.Get {K1} 11\nlist.Get {K1} -12\nlist.Range {K1} 9 12\n"
+                      f"list.Delete {K1} {e(3)}\nlist.Range {K1} 0 -1\nlist.Len {K1}\nlist.Trim {K1} 2 13\nlist.Range {K1} 0 -1\nlist.Len {K1}\n")
+            elif family == "str":
+                for i in idx[:14]:
+                    s += f"!str.Set {e(i)} {hx('v%d' % i)}\n"
+                s += "str.GetMany 15 " + " ".join(e(i) for i in idx[:14]) + f" {e(99)}\n"
+                # multi-set over EXISTING names only: Go iterates its map argument in an unspecified order, which decides the
+                # ids of new keys (the driver tries every order only up to 5 items)
+                s += "str.SetMany 12 " + " ".join(f"{e(i)} {hx('w%d' % i)}" for i in idx[:12]) + "\n"
+                s += "str.GetMany 12 " + " ".join(e(i) for i in idx[:12]) + "\nkey.Len\n"
+    return [dict(kind="script", script=s)] if s else []
+
 EA, EB, EC = hx("a"), hx("b"), hx("c")
 
 
@@ -726,7 +778,7 @@ def wire_fields(line):
 
 def reply_shape(toks):
     """Parse the token sequence of one request: returns (complete_values, leftover_or_incomplete, panicked)."""
-    panicked = bool(toks) and toks[-1] == "!PANIC"
+    panicked = bool(toks) and toks[-1] in ("!PANIC", "!HANG")
     if panicked:
         toks = toks[:-1]
     if toks == ["."]:
@@ -868,6 +920,8 @@ class C14(WireCfg):
         if w:
             values, incomplete, panicked = reply_shape(w["toks"])
             known = wire_known(w)
+            if panicked and w["toks"][-1] == "!HANG":
+                return ("violation", "the request did not return: the connection hangs (and, holding the single read-write connection, so does every other writer)")
             if panicked:
                 return ("violation", "the handler panicked (the real server would go down)")
             if not panicked and (values != 1 or incomplete):
